@@ -1,0 +1,8 @@
+//go:build verif
+
+package observation
+
+// VerifLen returns the number of registered observations (read-only, verification harness, build tag verif only).
+func (h *Handler[C]) VerifLen() int {
+	return h.observations.Length()
+}
